@@ -74,7 +74,10 @@ func (db *DB) openMemTables(opt Options) error {
 			flags = os.O_RDONLY
 		}
 		mt, err := db.openMemTable(fid, flags)
-		if err != nil {
+		// z.NewFile means that the file existed but was empty: the process died while the file was
+		// being created or deleted. openMemTable has set it up as an empty WAL, which is dropped
+		// below like any other empty memtable.
+		if err != nil && err != z.NewFile {
 			return y.Wrapf(err, "while opening fid: %d", fid)
 		}
 		// If this memtable is empty we don't need to add it. This is a
